@@ -8,8 +8,11 @@ import (
 	"path/filepath"
 	"sort"
 	"strconv"
+	"regexp"
+	"runtime"
 	"strings"
 	"testing"
+	"time"
 
 	"pgregory.net/rapid"
 
@@ -289,4 +292,34 @@ func inconclusive(property, partName, what string) {
 	st := stats.For(property, partName)
 	st.Label("inconclusive_watchdog", 1)
 	st.Note("inconclusive: " + what)
+}
+
+var restfulFrame = regexp.MustCompile(`github\.com/emicklei/go-restful/v3\.[^\n]*`)
+
+// guarded runs f under a watchdog of d. When f does not return in time the goroutine dump
+// decides: a goroutine parked in a sync lock operation below a go-restful frame means the
+// library left a lock held (blocked names that frame); without one the expiry proves nothing
+// (expired, to be recorded with inconclusive). The wedged goroutine is abandoned.
+func guarded(d time.Duration, f func()) (blocked string, expired bool) {
+	done := make(chan struct{})
+	go func() {
+		defer close(done)
+		f()
+	}()
+	select {
+	case <-done:
+		return "", false
+	case <-time.After(d):
+	}
+	buf := make([]byte, 4<<20)
+	buf = buf[:runtime.Stack(buf, true)]
+	for _, g := range strings.Split(string(buf), "\n\n") {
+		if !strings.Contains(g, "sync.(*RWMutex).Lock") && !strings.Contains(g, "sync.(*RWMutex).RLock") && !strings.Contains(g, "sync.(*Mutex).Lock") {
+			continue
+		}
+		if fr := restfulFrame.FindString(g); fr != "" {
+			return strings.TrimSpace(fr), true
+		}
+	}
+	return "", true
 }
